@@ -107,6 +107,12 @@ class Server(object):
 if __name__ == '__main__':
     from multiprocessing.connection import Listener
 
+    # started as a script: the directory of this file is first on sys.path,
+    # which would make the modules of supp itself (util, name, project,
+    # linter, ...) top-level modules of every analysed project
+    here = os.path.dirname(os.path.abspath(__file__))
+    sys.path[:] = [p for p in sys.path if os.path.abspath(p or '.') != here]
+
     if 'SUPP_LOG_LEVEL' in os.environ:
         level = int(os.environ['SUPP_LOG_LEVEL'])
     else:
